@@ -1906,7 +1906,18 @@ def p_option_map(ev, st, ctx):
         raise Unsupported("Option::map of %r" % (v,))
     pay = dict(v.payloads)
     if 1 in pay:
-        pay[1] = (call_closure(ev, st, f, list(pay[1]), ctx.fr.depth),)
+        if isinstance(v.discr, int):
+            pay[1] = (call_closure(ev, st, f, list(pay[1]), ctx.fr.depth),)
+        else:
+            # the closure runs only when the value is Some: evaluate it under that assumption, keep its effects conditional
+            from .evalmir import add_assume
+            is_some = T.bnot(T.eqz(v.discr))
+            s1 = st.fork()
+            add_assume(s1, is_some)
+            pay[1] = (call_closure(ev, s1, f, list(pay[1]), ctx.fr.depth),)
+            s1.assume = st.assume
+            merged = ev.merge_states(is_some, s1, st)
+            st.objs, st.world = merged.objs, merged.world
     return EnumV(v.discr, pay)
 
 
